@@ -509,8 +509,6 @@ func (f *Flooder) AnnounceLocalRoutes() {
 	localDomainRoutes := f.routeMgr.GetLocalDomainRoutes()
 	localForwardRoutes := f.routeMgr.GetLocalForwardRoutes()
 
-	seq := f.routeMgr.IncrementSequence()
-
 	// Convert to protocol routes (CIDR + domain + forward + agent presence)
 	routes := make([]protocol.Route, 0, len(localRoutes)+len(localDomainRoutes)+len(localForwardRoutes)+1)
 
@@ -568,29 +566,33 @@ func (f *Flooder) AnnounceLocalRoutes() {
 		displayName = ""
 	}
 
-	// Build advertisement
-	adv := &protocol.RouteAdvertise{
-		OriginAgent:       f.localID,
-		OriginDisplayName: displayName,
-		Sequence:          seq,
-		Routes:            routes,
-		Path:              path,    // Keep for backwards compat
-		EncPath:           encPath, // Encrypted path for wire format
-		SeenBy:            []identity.AgentID{f.localID},
-	}
+	// Build one advertisement per group of routes that fits the wire format
+	// (the route count field is a single byte), each with its own sequence
+	// number so that receivers do not drop the later ones as duplicates.
+	for _, chunk := range f.splitRoutesForAdvertise(routes) {
+		adv := &protocol.RouteAdvertise{
+			OriginAgent:       f.localID,
+			OriginDisplayName: displayName,
+			Sequence:          f.routeMgr.IncrementSequence(),
+			Routes:            chunk,
+			Path:              path,    // Keep for backwards compat
+			EncPath:           encPath, // Encrypted path for wire format
+			SeenBy:            []identity.AgentID{f.localID},
+		}
 
-	frame := &protocol.Frame{
-		Type:     protocol.FrameRouteAdvertise,
-		StreamID: protocol.ControlStreamID,
-		Payload:  adv.Encode(),
-	}
+		frame := &protocol.Frame{
+			Type:     protocol.FrameRouteAdvertise,
+			StreamID: protocol.ControlStreamID,
+			Payload:  adv.Encode(),
+		}
 
-	// Send to all peers
-	for _, peerID := range f.sender.GetPeerIDs() {
-		if err := f.sender.SendToPeer(peerID, frame); err != nil {
-			f.logger.Debug("failed to announce local routes",
-				logging.KeyPeerID, peerID.ShortString(),
-				logging.KeyError, err)
+		// Send to all peers
+		for _, peerID := range f.sender.GetPeerIDs() {
+			if err := f.sender.SendToPeer(peerID, frame); err != nil {
+				f.logger.Debug("failed to announce local routes",
+					logging.KeyPeerID, peerID.ShortString(),
+					logging.KeyError, err)
+			}
 		}
 	}
 }
@@ -697,8 +699,6 @@ func (f *Flooder) SendFullTable(peerID identity.AgentID) {
 
 	// Send a separate advertisement for each origin
 	for originAgent := range allOrigins {
-		seq := f.routeMgr.IncrementSequence()
-
 		cidrRoutes := byOrigin[originAgent]
 		agentPresenceRoutes := agentByOrigin[originAgent]
 		forwardOriginRoutes := forwardByOrigin[originAgent]
@@ -765,25 +765,28 @@ func (f *Flooder) SendFullTable(peerID identity.AgentID) {
 			}
 		}
 
-		adv := &protocol.RouteAdvertise{
-			OriginAgent:       originAgent,
-			OriginDisplayName: originDisplayName,
-			Sequence:          seq,
-			Routes:            routes,
-			Path:              path,
-			SeenBy:            []identity.AgentID{f.localID},
-		}
+		// One advertisement per group of routes that fits the wire format
+		for _, chunk := range f.splitRoutesForAdvertise(routes) {
+			adv := &protocol.RouteAdvertise{
+				OriginAgent:       originAgent,
+				OriginDisplayName: originDisplayName,
+				Sequence:          f.routeMgr.IncrementSequence(),
+				Routes:            chunk,
+				Path:              path,
+				SeenBy:            []identity.AgentID{f.localID},
+			}
 
-		frame := &protocol.Frame{
-			Type:     protocol.FrameRouteAdvertise,
-			StreamID: protocol.ControlStreamID,
-			Payload:  adv.Encode(),
-		}
+			frame := &protocol.Frame{
+				Type:     protocol.FrameRouteAdvertise,
+				StreamID: protocol.ControlStreamID,
+				Payload:  adv.Encode(),
+			}
 
-		if err := f.sender.SendToPeer(peerID, frame); err != nil {
-			f.logger.Debug("failed to send full routing table",
-				logging.KeyPeerID, peerID.ShortString(),
-				logging.KeyError, err)
+			if err := f.sender.SendToPeer(peerID, frame); err != nil {
+				f.logger.Debug("failed to send full routing table",
+					logging.KeyPeerID, peerID.ShortString(),
+					logging.KeyError, err)
+			}
 		}
 	}
 }
@@ -966,6 +969,61 @@ func ipNetToProtocolRoute(network *net.IPNet, metric uint16) protocol.Route {
 // routeToProtocol converts a routing.Route (full route with path) to a protocol.Route.
 func routeToProtocol(route *routing.Route) protocol.Route {
 	return ipNetToProtocolRoute(route.Network, route.Metric)
+}
+
+// maxRoutesPerAdvertise is the largest number of routes one ROUTE_ADVERTISE can
+// carry: the route count is a single byte on the wire.
+const maxRoutesPerAdvertise = 255
+
+// maxRouteBytesPerAdvertise bounds the encoded routes of one advertisement so
+// that the frame stays well below protocol.MaxPayloadSize even after transit
+// agents have extended the path and seen-by lists.
+const maxRouteBytesPerAdvertise = protocol.MaxPayloadSize / 2
+
+// routeFitsWire reports whether the receiver will read back exactly r.Prefix.
+// Domain patterns, forward keys and forward targets carry a one-byte length, so
+// a component longer than 255 bytes cannot be represented.
+func routeFitsWire(r protocol.Route) bool {
+	p := r.Prefix
+	switch r.AddressFamily {
+	case protocol.AddrFamilyDomain:
+		return len(p) >= 1 && len(p) == 1+int(p[0])
+	case protocol.AddrFamilyForward:
+		if len(p) < 2 || 1+int(p[0]) >= len(p) {
+			return false
+		}
+		return len(p) == 2+int(p[0])+int(p[1+int(p[0])])
+	default:
+		return true
+	}
+}
+
+// splitRoutesForAdvertise splits routes into groups that each fit a single
+// ROUTE_ADVERTISE. Routes that cannot be represented on the wire are left out
+// and reported instead of being sent in a form the receiver would misread.
+func (f *Flooder) splitRoutesForAdvertise(routes []protocol.Route) [][]protocol.Route {
+	var chunks [][]protocol.Route
+	var cur []protocol.Route
+	size := 0
+	for _, r := range routes {
+		if !routeFitsWire(r) {
+			f.logger.Warn("route not advertised: prefix does not fit the wire format",
+				"address_family", r.AddressFamily,
+				"prefix_bytes", len(r.Prefix))
+			continue
+		}
+		rs := 4 + len(r.Prefix)
+		if len(cur) > 0 && (len(cur) >= maxRoutesPerAdvertise || size+rs > maxRouteBytesPerAdvertise) {
+			chunks = append(chunks, cur)
+			cur, size = nil, 0
+		}
+		cur = append(cur, r)
+		size += rs
+	}
+	if len(cur) > 0 {
+		chunks = append(chunks, cur)
+	}
+	return chunks
 }
 
 // floodFrame sends a frame to all peers except the source and those in the seen-by list.
